@@ -106,6 +106,18 @@ pub fn generate(ctx: &mut Ctx, rep: &mut Report, emit: &mut dyn FnMut(&mut Ctx, 
         emit(ctx, rep, format!("hex.dec {}", hex(s.as_bytes())));
     }
     rep.exhaustive_parts.push(format!("unhexify over all strings of <= {} characters over a {}-symbol alphabet", maxlen, alpha.len()));
+    // one foreign character in otherwise valid hex text: every code point below U+0800, and in every 256-block
+    // of the BMP (and a few astral planes) the code points whose LOW BYTE is the ASCII code of a hex digit
+    // (U+0130, U+0141, U+0161, U+FF11, ...: what a truncating cast or a byte-wise test would let through)
+    let mut cps: Vec<u32> = (0x80..0x800u32).collect();
+    for hi in (0x08..=0xffu32).chain([0x100, 0x1f6, 0x200, 0x10ff]) { for lo in (0x30..=0x39u32).chain(0x41..=0x46).chain(0x61..=0x66).chain([0x2b, 0x2d, 0x20]) { cps.push(hi << 8 | lo); } }
+    for cp in cps {
+        if let Some(c) = char::from_u32(cp) {
+            for s in [format!("{}0", c), format!("0{}", c), format!("{}f88071a", c), format!("{}{}", c, c)] { emit(ctx, rep, format!("hex.dec {}", hex(s.as_bytes()))); }
+        }
+    }
+    for c in 0u8..0x80 { for s in [format!("{}f88071a", c as char), format!("1{}", c as char), format!("{}{}", c as char, c as char)] { emit(ctx, rep, format!("hex.dec {}", hex(s.as_bytes()))); } }
+    rep.exhaustive_parts.push("unhexify with each of ~8000 single foreign characters (all < U+0800; low byte = hex digit code in every 256-block of the BMP) inside valid hex text".into());
     // random
     let mut rng = Rng::new(ctx.seed ^ 0x18);
     let n = ctx.n(20_000, 1_000_000);
